@@ -342,6 +342,30 @@ func ruleReplacementKey(c *Ctx, r *Repo, ip *packages.Package, md *ast.FuncDecl)
 	funcs := pkgFuncs(ip)
 	isZero := func(s string) bool { return s == "zero" || s == `""` }
 	// contract for one (T, atoms, pkgArg, nameArg)
+	// anyAssert prints every assertion of T, whatever type it asserts, as T.(_): which view of the value
+	// Obj() is called through does not matter once the path has established that T is named or an alias
+	anyAssert := func(x, T string) string {
+		var b strings.Builder
+		for {
+			i := strings.Index(x, T+".(")
+			if i < 0 {
+				b.WriteString(x)
+				return b.String()
+			}
+			j, depth := i+len(T)+2, 1
+			for j < len(x) && depth > 0 {
+				switch x[j] {
+				case '(':
+					depth++
+				case ')':
+					depth--
+				}
+				j++
+			}
+			b.WriteString(x[:i] + T + ".(_)")
+			x = x[j:]
+		}
+	}
 	keyOK := func(p *dtPath, T, pkgArg, nameArg string) (bool, string) {
 		named, hasN := false, false
 		alias, hasA := false, false
@@ -354,14 +378,17 @@ func ruleReplacementKey(c *Ctx, r *Repo, ip *packages.Package, md *ast.FuncDecl)
 			case e == T+".(*types.Alias)#ok":
 				alias, hasA = a.Val, true
 			case strings.HasSuffix(e, ".Obj().Pkg() == nil"):
-				pkgNil[strings.TrimSuffix(e, ".Obj().Pkg() == nil")] = a.Val
+				pkgNil[anyAssert(strings.TrimSuffix(e, ".Obj().Pkg() == nil"), T)] = a.Val
+			case strings.HasSuffix(e, ".Obj() == nil") && a.Val:
+				// go/types: a named or alias type always has its type name
+				return true, ""
 			}
 		}
-		pkgArg, nameArg = stripRes(pkgArg), stripRes(nameArg)
+		pkgArg, nameArg = anyAssert(stripRes(pkgArg), T), anyAssert(stripRes(nameArg), T)
 		for _, arm := range []struct {
 			on bool
 			x  string
-		}{{hasN && named, T + ".(*types.Named)"}, {hasA && alias, T + ".(*types.Alias)"}} {
+		}{{hasN && named, T + ".(_)"}, {hasA && alias, T + ".(_)"}} {
 			if !arm.on {
 				continue
 			}
@@ -395,7 +422,7 @@ func ruleReplacementKey(c *Ctx, r *Repo, ip *packages.Package, md *ast.FuncDecl)
 		if !ok {
 			return true
 		}
-		iv, bound, body, ok := indexLoop(info, st)
+		iv, bound, body, ok := indexLoopIn(info, md, st)
 		if !ok {
 			return true
 		}
@@ -411,6 +438,14 @@ func ruleReplacementKey(c *Ctx, r *Repo, ip *packages.Package, md *ast.FuncDecl)
 		}
 		nLoops++
 		d := newDT(info)
+		// the lookup and the registration may sit in private helpers of methodData: their calls are followed
+		d.callInline = map[*types.Func]*ast.FuncDecl{}
+		for fn, g := range pkgUnexported(ip) {
+			if g != md && !keyHelper(info, g) {
+				d.callInline[fn] = g
+			}
+		}
+		d.hoistCalls = true
 		start := d.envBefore(seedEnv(d, md), md.Body.List, st)
 		d.loopUnknown(start, st)
 		start.env[iv] = "I"
@@ -508,24 +543,46 @@ func ruleReplacementKey(c *Ctx, r *Repo, ip *packages.Package, md *ast.FuncDecl)
 	}
 	// every caller hands methodData the config of the interface it is rendering
 	nCalls := 0
+	judged := map[*ast.CallExpr]bool{}
+	judge := func(fc *fcanon, n ast.Node) {
+		call, ok := n.(*ast.CallExpr)
+		if !ok || len(call.Args) != 3 || funcs[calleeFunc(info, call)] != md || judged[call] {
+			return
+		}
+		judged[call] = true
+		nCalls++
+		cx := fc.E(call.Args[2])
+		good := false
+		if se, ok := ast.Unparen(call.Args[2]).(*ast.SelectorExpr); ok && se.Sel.Name == "Config" && typeIs(info.TypeOf(se.X), "*config.Interface") {
+			good = strings.HasPrefix(cx, "rangeval(ARG") && strings.HasSuffix(cx, ").Config")
+		}
+		c.Check(good, "R13.1", "methodData|addvar|caller-config", r.Pos(call.Pos()), "methodData receives <the interface being rendered>.Config", "methodData is called with "+cx+" instead of the Config of the interface being rendered: replace-type (and every other per-interface setting it consults) set on the interface or a configs entry is ignored")
+	}
+	// seen from Generate first (the call may sit in a helper that is handed the interface being rendered),
+	// then any call site not reached that way, in its own terms
+	if gen := FuncDecl(ip, "TemplateGenerator.Generate"); gen != nil {
+		inspectWithHelpers(ip, gen, newFuncCanon(info, gen), 3, func(fc *fcanon, _ *ast.FuncDecl, n ast.Node) bool {
+			judge(fc, n)
+			return true
+		})
+	}
 	for _, fd := range pkgFuncDecls(ip) {
 		fc := newFuncCanon(info, fd)
 		ast.Inspect(fd.Body, func(n ast.Node) bool {
-			call, ok := n.(*ast.CallExpr)
-			if !ok || len(call.Args) != 3 || funcs[calleeFunc(info, call)] != md {
-				return true
-			}
-			nCalls++
-			cx := fc.E(call.Args[2])
-			good := false
-			if se, ok := ast.Unparen(call.Args[2]).(*ast.SelectorExpr); ok && se.Sel.Name == "Config" && typeIs(info.TypeOf(se.X), "*config.Interface") {
-				good = strings.HasPrefix(cx, "rangeval(ARG") && strings.HasSuffix(cx, ").Config")
-			}
-			c.Check(good, "R13.1", "methodData|addvar|caller-config", r.Pos(call.Pos()), "methodData receives <the interface being rendered>.Config", "methodData is called with "+cx+" instead of the Config of the interface being rendered: replace-type (and every other per-interface setting it consults) set on the interface or a configs entry is ignored")
+			judge(fc, n)
 			return true
 		})
 	}
 	if nCalls == 0 {
 		c.Fail("R13.1", "methodData|addvar|caller-config", r.Pos(md.Pos()), "methodData is never called")
 	}
+}
+
+// keyHelper: a plain function from one types.Type to the (package path, name) pair: held to the key contract
+// as a whole (ruleReplacementKey), not followed.
+func keyHelper(info *types.Info, g *ast.FuncDecl) bool {
+	if g.Recv != nil || g.Type.Params.NumFields() != 1 || g.Type.Results == nil || g.Type.Results.NumFields() != 2 {
+		return false
+	}
+	return typeIs(info.TypeOf(g.Type.Params.List[0].Type), "go/types.Type")
 }
